@@ -286,6 +286,10 @@ RULES = [
     ('undefined-name', 'assign a {b + 1}'),
     ('undefined-name', 'nosuch 1 2'),
     ('undefined-name', 'print [nosuch 1]'),
+    ('malformed-loop', 'repeat with i in "Top" hue 5'),
+    ('malformed-loop', 'repeat with i in "Top" and "Candle" begin hue 5 end'),
+    ('number-too-long', 'hue ' + '1' * 4301),
+    ('number-too-long', 'print {3 + ' + '9' * 5000 + '}'),
     ('undefined-name', 'assign y y'),
     ('undefined-name', 'repeat with i from 1 to i begin print i end'),
     ('undefined-name', 'repeat 3 with i from i to 5 begin print i end'),
